@@ -61,13 +61,13 @@ def _mk_txn(desc, amount, fk, src, y, m, d):
     return {'description': desc, 'amount': amount, 'field': {'k': fk}, 'source': src, 'date': date(y, m, d)}
 
 
-def real_conditions(tname, dlen=3, slen=2, via='engine'):
+def real_conditions(tname, dlen=3, slen=2, via='engine', gseed=0):
     """Real MerchantEngine.match (or normalize_merchant through the cached engine) on a template whose pattern
     and threshold constants are symbolic, against the independent first-match oracle of harness.tmpl."""
     from harness import tmpl
     global DLEN, SLEN
     DLEN, SLEN = dlen, slen
-    text = tmpl.TEMPLATES[tname]
+    text = tmpl.TEMPLATES[tname] if tname in tmpl.TEMPLATES else tmpl.generated(400, gseed)[tname]
 
     def ob(desc: str, amount: int, s1: str, s2: str, s3: str, s4: str, n1: int, n2: int, n3: int,
            fk: str, src: str, y: int, m: int, d: int) -> bool:
@@ -352,6 +352,10 @@ def obligations(tier, seed):
         obs.append(Obligation(id=f'norm-{t}', factory='real_conditions', params={'tname': t, 'dlen': dl, 'slen': sl, 'via': 'normalize'},
                               timeout=170 if q else 1500, group='normalize_merchant, engine path',
                               bounds=f'template {t} through normalize_merchant with the cached engine; description <= {dl}, constants <= {sl}'))
+    for t in list(_t.generated(8 if q else 120, seed)):
+        obs.append(Obligation(id=f'real-{t}', factory='real_conditions', params={'tname': t, 'dlen': dl, 'slen': sl, 'gseed': seed},
+                              timeout=170 if q else 1500, group='real conditions (generated rule files)',
+                              bounds=f'generated rule file {t} (2-3 random rule blocks + the global variables they use, VERIF_SEED={seed}): description <= {dl}, constants <= {sl}'))
     for path in ['engine', 'legacy']:
         obs.append(Obligation(id=f'unknown-{path}', factory='unknown_name', params={'path': path, 'dlen': 2 if q else 3}, timeout=170 if q else 1500,
                               group='Unknown fallback', bounds=f'description <= {2 if q else 3} chars over the alphabet (a,B,1,blank,-); two different amounts/dates/sources/fields'))
